@@ -12,7 +12,17 @@ Extracted (every run, from the working tree under test):
   * `canContainKinds`, `codeUnitKinds`, `moduleLikeKinds` - the isinstance tests
                   of the chain (`_can_have_contains`, FortranCodeUnit, FortranModule);
   * `dbgDefault`, `forceDefault` - the defaults of the two settings that decide
-                  what print_error does.
+                  what print_error does;
+  * `reservesAtParse`, `otherReservations` - which constructors ask the process-wide
+                  `NameSelector` (`sourceform.namelist`) for an identifier *while the
+                  file is being parsed* (probed: a source with every container kind in
+                  every parent that can hold it is parsed under a selector that logs
+                  `get_name`; as the code is, none does - identifiers are handed out
+                  lazily, after the per-file try/except has decided about the file);
+  * `eofProbes`  - what the real `FortranReader` does when the file ends in each of its
+                  states (after a complete statement, inside a continued statement, inside
+                  a `!>` / `!|` / `!*` block, after a doc line, ...): the items it yields,
+                  that it raises, or that it does not come back within 2 s.
 A construct that cannot be found raises (the check then reports "tie broken").
 """
 from __future__ import annotations
@@ -22,6 +32,7 @@ import inspect
 import io
 import contextlib
 import os
+import re
 import tempfile
 import textwrap
 from pathlib import Path
@@ -210,6 +221,195 @@ def probe_attrs(sf, attrs) -> dict[str, list[str]]:
     return seen
 
 
+# ---------------------------------------------------------------------------------------
+# identifiers requested from the NameSelector while a file is parsed
+# ---------------------------------------------------------------------------------------
+CHILD_OPENERS = {
+    "module": "module {n}", "submodule": "submodule (anc) {n}", "program": "program {n}",
+    "subroutine": "subroutine {n}()", "function": "function {n}()", "modproc": "module procedure {n}",
+    "type": "type {n}", "interface": "interface {n}", "enum": "enum, bind(c)", "blockdata": "block data {n}",
+}
+LIST_ATTR = {"module": "modules", "submodule": "submodules", "program": "programs", "subroutine": "subroutines",
+             "function": "functions", "type": "types", "interface": "interfaces", "enum": "enums",
+             "blockdata": "blockdata"}
+NEEDS_CONTAINS = {"subroutine", "function", "modproc"}
+
+
+def names_probe_source(table, module_like, code_units) -> tuple[str, set]:
+    """A source in which every container kind occurs in every parent that can hold it
+    (according to the hasattr table), and the set of (parent, child) pairs it contains."""
+    lines: list[str] = []
+    pairs: set = set()
+    count = [0]
+
+    def children_of(parent):
+        out = [c for c, a in LIST_ATTR.items() if a in table[parent]]
+        if parent in module_like:
+            out.append("modproc")
+        return out
+
+    def emit(parent, kind, with_children):
+        count[0] += 1
+        name = f"n{count[0]}"
+        pairs.add((parent, kind))
+        lines.append(CHILD_OPENERS[kind].replace("{n}", name))
+        if with_children:
+            kids = children_of(kind)
+            spec = [k for k in kids if k not in NEEDS_CONTAINS]
+            body = [k for k in kids if k in NEEDS_CONTAINS]
+            if kind == "interface":
+                spec, body = kids, []
+            for k in spec:
+                emit(kind, k, False)
+            if body:
+                if kind in code_units:
+                    lines.append("contains")
+                for k in body:
+                    emit(kind, k, False)
+        lines.append("end")
+
+    for top in children_of("file"):
+        emit("file", top, True)
+    # the kinds that cannot stand at file level, as parents
+    lines.append("module holder")
+    for k in ("interface",):
+        emit("module", k, True)
+    lines.append("contains")
+    emit("module", "modproc", True)
+    lines.append("end")
+    return "".join(l + "\n" for l in lines), pairs
+
+
+def probe_reservations(sf, table, module_like, code_units):
+    """(parent kind, kind, directory) of every container whose identifier is requested from
+    `sourceform.namelist` while FortranSourceFile(...) runs, and the number of such requests
+    for anything that is not a container in a container."""
+    from ford.settings import ProjectSettings
+
+    if not hasattr(sf, "namelist") or not hasattr(sf, "NameSelector") or not hasattr(sf.NameSelector, "get_name"):
+        raise ValueError("sourceform.namelist / NameSelector.get_name not found")
+    src, pairs = names_probe_source(table, module_like, code_units)
+    wanted = set()
+    for parent in KINDS:
+        kids = [c for c, a in LIST_ATTR.items() if a in table[parent]]
+        if parent in module_like:
+            kids.append("modproc")
+        wanted |= {(parent, c) for c in kids}
+    if wanted - pairs:
+        raise ValueError(f"reservation probe does not contain {sorted(wanted - pairs)}")
+    log = []
+
+    class Logging(sf.NameSelector):
+        def get_name(self, item):
+            log.append(item)
+            return super().get_name(item)
+
+    old = sf.namelist
+    sf.namelist = Logging()
+    try:
+        with tempfile.TemporaryDirectory() as d:
+            p = Path(d) / "probe_names.f90"
+            p.write_text(src)
+            buf = io.StringIO()
+            with contextlib.redirect_stdout(buf):
+                f = sf.FortranSourceFile(str(p), ProjectSettings(preprocess=False, dbg=False))
+        reached = set()
+
+        def walk(ent, pk):
+            for attr in list(LIST_ATTR.values()) + ["modprocedures"]:
+                for c in getattr(ent, attr, None) or []:
+                    ck = KIND_OF_CLASS.get(type(c).__name__)
+                    if ck is not None:
+                        reached.add((pk, ck))
+                        walk(c, ck)
+
+        walk(f, "file")
+        # an interface hands its procedures over to the parent; they were parsed all the same
+        reached |= {p_ for p_ in pairs if p_[0] == "interface"}
+        if pairs - reached:
+            raise ValueError(f"reservation probe did not parse {sorted(pairs - reached)}")
+        triples, other = [], 0
+        for item in log:
+            ck = KIND_OF_CLASS.get(type(item).__name__)
+            pk = KIND_OF_CLASS.get(type(getattr(item, "parent", None)).__name__)
+            d_ = item.get_dir()
+            if ck is None or pk is None or ck == "file" or not isinstance(d_, str) or not re.fullmatch(r"[a-z]+", d_):
+                other += 1
+            elif (pk, ck, d_) not in triples:
+                triples.append((pk, ck, d_))
+    finally:
+        sf.namelist = old
+    return triples, other
+
+
+# ---------------------------------------------------------------------------------------
+# what the reader does when the file ends in each of its states
+# ---------------------------------------------------------------------------------------
+EOF_PROBES = [
+    ["module m", "integer :: x"],                 # after a complete statement
+    ["module m", "integer :: x, &"],              # inside a continued statement
+    ["module m", "&"],                            # a lone ampersand
+    ["module m", "!> before"],                    # inside a !> block
+    ["module m", "!> before", ""],                # ... followed by a blank line
+    ["module m", "!> one", "!> two"],
+    ["module m", "!| before", "! more"],          # inside a !| block
+    ["module m", "integer :: x", "!! after"],     # after a doc line
+    ["module m", "integer :: x", "!! after", ""],
+    ["module m", "integer :: x", "!* after", "! more"],   # inside a !* block
+    ["module m", "integer :: x, &", "!> before"],  # continued and inside a !> block
+    ["module m", "x = 'abc &"],                   # inside a character literal
+    ["!> before"],                                # nothing but a !> block
+    ["!! after"],
+    [""],
+]
+MARKS = ("!", ">", "*", "|")
+
+
+class _ProbeTimeout(BaseException):
+    pass
+
+
+def probe_eof():
+    import signal
+    from ford.reader import FortranReader
+
+    def on_alarm(signum, frame):
+        raise _ProbeTimeout()
+
+    out = []
+    with tempfile.TemporaryDirectory() as d:
+        for i, lines in enumerate(EOF_PROBES):
+            p = Path(d) / f"eof{i}.f90"
+            p.write_text("".join(l + "\n" for l in lines))
+            old = signal.signal(signal.SIGALRM, on_alarm)
+            signal.alarm(2)
+            try:
+                try:
+                    with contextlib.redirect_stdout(io.StringIO()):
+                        obs = ("items", list(FortranReader(str(p), *MARKS)))
+                except _ProbeTimeout:
+                    obs = ("hung", None)
+                except Exception:  # noqa - the reader raised
+                    obs = ("raised", None)
+            finally:
+                signal.alarm(0)
+                signal.signal(signal.SIGALRM, old)
+            out.append((lines, obs))
+    return out
+
+
+def lean_chars(s: str) -> str:
+    def ch(c):
+        if c == "'":
+            return "'\\''"
+        if c == "\\":
+            return "'\\\\'"
+        if not (32 <= ord(c) < 127):
+            raise ValueError(f"character {c!r} in a generated literal")
+        return f"'{c}'"
+    return "[" + ", ".join(ch(c) for c in s) + "]"
+
+
 def lean_list(items) -> str:
     return "[" + ", ".join(items) + "]"
 
@@ -241,6 +441,11 @@ def generate() -> str:
     for a in attrs:
         if a not in known_attrs:
             raise ValueError(f"cascade tests a new attribute {a!r}")
+    reserves, other_res = probe_reservations(sf, table, module_like, code_units)
+    eof = probe_eof()
+
+    def obs_lean(o):
+        return ".items " + lean_list(lean_chars(x) for x in o[1]) if o[0] == "items" else "." + o[0]
     L = ["/- GENERATED by translate/c20.py from ford/sourceform.py and ford/settings.py - do not edit -/",
          "import FordModel.NestingTypes", "namespace Ford.Gen", "open Ford", "",
          "/-- the if/elif chain of FortranContainer.__init__, in source order -/",
@@ -256,7 +461,16 @@ def generate() -> str:
          f"def typeLikeKinds : List CK := {lean_list('.' + k for k in type_like)}",
          f"def fileHasCleanup : Bool := {'true' if file_cleanup else 'false'}",
          f"def dbgDefault : Bool := {'true' if s.dbg else 'false'}",
-         f"def forceDefault : Bool := {'true' if s.force else 'false'}",
+         f"def forceDefault : Bool := {'true' if s.force else 'false'}", "",
+         "/-- (parent kind, kind, directory): containers whose constructor asks the process-wide NameSelector",
+         "    for an identifier while the file is still being parsed (probed) -/",
+         "def reservesAtParse : List (CK × CK × Str) :=",
+         "  " + lean_list(f"(.{p}, .{c}, {lean_chars(d)})" for p, c, d in reserves),
+         "/-- such requests for anything that is not a container inside a container -/",
+         f"def otherReservations : Nat := {other_res}", "",
+         "/-- files ending in each state of the reader (default marks) and what FortranReader does on them -/",
+         "def eofProbes : List (List Str × ProbeObs) :=",
+         "  [" + ",\n   ".join("(" + lean_list(lean_chars(l) for l in lines) + ", " + obs_lean(o) + ")" for lines, o in eof) + "]",
          "", "end Ford.Gen", ""]
     return "\n".join(L)
 
